@@ -77,7 +77,7 @@ def main():
   rep.obligations = len(names)
   driver_ok = True
   if not args.no_build:
-    ok, log = fw.lake_build(['ParanoidModel.Props.' + prop])
+    ok, log = fw.lake_build(['ParanoidModel.Props.' + m for m in fw.props_modules(prop)])
     if not ok:
       rep.broken.append('lake build ParanoidModel.Props.%s failed' % prop)
       rep.notes.append(fw.trunc(log[-3000:], 3000))
